@@ -159,6 +159,8 @@ struct ShOwner {
     /// (value, stale) — stale = provided before the scope's last release
     ctx: [Option<(i64, bool)>; 3],
     alive: bool,
+    /// the effect task owning this scope has ended (its release is booked at the end of the op)
+    gone: bool,
 }
 
 #[derive(Default)]
@@ -222,7 +224,7 @@ impl Shadow {
     fn lookup(&self, from: Option<usize>, ty: usize, skip_stale: bool) -> Option<(usize, i64, bool)> {
         let mut p = from;
         while let Some(x) = p {
-            if !self.owners[x].alive {
+            if !self.owners[x].alive || self.owners[x].gone {
                 return None;
             }
             if let Some((v, stale)) = self.owners[x].ctx[ty] {
@@ -282,7 +284,9 @@ impl Drop for Sentinel {
         let _ = W.try_with(|c| {
             if let Ok(mut w) = c.try_borrow_mut() {
                 if w.active {
-                    w.ended.push(e)
+                    w.ended.push(e);
+                    let o = w.sh.e_owner[e];
+                    w.sh.owners[o].gone = true;
                 }
             }
         });
@@ -1280,7 +1284,7 @@ fn main() {
             let mut rng = Rng::new(seed);
             let mut out = String::new();
             let big = tier == "thorough";
-            let ex = if big { gen_exhaustive(4, n / 3) } else { gen_exhaustive(3, n / 3) };
+            let ex = if big { gen_exhaustive(4, n / 2) } else { gen_exhaustive(3, n / 2) };
             let nex = ex.len();
             for c in ex {
                 for l in c {
